@@ -334,6 +334,61 @@ def isclose(a, b, rtol=1e-05, atol=1e-08, **kw):
     return out[()] if out.ndim == 0 else out
 
 
+def _boolarr(a):
+    a = _np.asarray(a, dtype=object) if not isinstance(a, _np.ndarray) else a
+    return a
+
+
+def _has_symbool(*xs):
+    for x in xs:
+        if isinstance(x, S.SymBool):
+            return True
+        if isinstance(x, _np.ndarray) and x.dtype == object and any(isinstance(v, S.SymBool) for v in x.ravel()):
+            return True
+    return False
+
+
+def _logical(op):
+    real = getattr(_np, "logical_" + op)
+
+    def f(a, b, **kw):
+        if not ACTIVE[0] or not _has_symbool(a, b):
+            return real(a, b, **kw)
+        a_, b_ = _np.broadcast_arrays(_boolarr(a), _boolarr(b))
+        out = _np.empty(a_.shape, dtype=object)
+        for idx in _np.ndindex(*a_.shape):
+            x, y = S._cb(a_[idx]), S._cb(b_[idx])
+            out[idx] = (x | y) if op == "or" else (x & y)
+        return out[()] if out.ndim == 0 else out
+
+    return f
+
+
+def _all(a, *args, **kw):
+    if not ACTIVE[0] or args or kw or not _has_symbool(a):
+        return _np.all(a, *args, **kw)
+    return S.conj([S._cb(v) for v in _boolarr(a).ravel()])
+
+
+def _any(a, *args, **kw):
+    if not ACTIVE[0] or args or kw or not _has_symbool(a):
+        return _np.any(a, *args, **kw)
+    r = S.FALSE
+    for v in _boolarr(a).ravel():
+        r = r | S._cb(v)
+    return r
+
+
+def _where(cond, *args):
+    if not ACTIVE[0] or not _has_symbool(cond):
+        return _np.where(cond, *args)
+    c = _boolarr(cond)
+    dec = _np.empty(c.shape, dtype=bool)
+    for idx in _np.ndindex(*c.shape):
+        dec[idx] = bool(c[idx])  # forks the path
+    return _np.where(dec, *args)
+
+
 def allclose(a, b, rtol=1e-05, atol=1e-08, **kw):
     if not ACTIVE[0] or not _any_obj([a, b]):
         return _np.allclose(a, b, rtol=rtol, atol=atol, **kw)
@@ -415,6 +470,11 @@ OVERRIDES = {
     "isclose": isclose,
     "allclose": allclose,
     "isfinite": isfinite,
+    "logical_or": _logical("or"),
+    "logical_and": _logical("and"),
+    "all": _all,
+    "any": _any,
+    "where": _where,
     "linalg": _LINALG,
     "pi": None,
     "sqrt": _unary("sqrt"),
